@@ -4,6 +4,7 @@ mod core;
 mod e2e;
 mod env;
 mod enumr;
+mod sched;
 mod selfcheck;
 mod sut;
 
